@@ -15,7 +15,7 @@ use crate::client::utils::process_tasks_with_max_concurrency;
 use crate::client::{ClientEvent, UploadSummary};
 use crate::{self_encryption::encrypt, Client};
 use ant_evm::{Amount, AttoTokens};
-use ant_networking::{GetRecordCfg, NetworkError};
+use ant_networking::{GetRecordCfg, GetRecordError, NetworkError};
 use ant_protocol::{
     storage::{try_deserialize_record, Chunk, ChunkAddress, RecordHeader, RecordKind},
     NetworkAddress,
@@ -131,6 +131,17 @@ impl Client {
 
         if let RecordKind::Chunk = header.kind {
             let chunk: Chunk = try_deserialize_record(&record)?;
+            // The chunk's address is recomputed from its content when deserialising:
+            // a holder must not be able to pass off other content for the requested address.
+            if chunk.name() != &addr {
+                error!(
+                    "Chunk content mismatch: requested {addr:?}, got content of {:?}",
+                    chunk.name()
+                );
+                return Err(
+                    NetworkError::GetRecordError(GetRecordError::RecordDoesNotMatch(record)).into(),
+                );
+            }
             Ok(chunk)
         } else {
             error!(
